@@ -1,6 +1,7 @@
 package main
 
 import (
+	_ "golang.org/x/crypto/sha3" // registers crypto.SHA3_* so that TPM names tagged with SHA-3 algorithms decode (a relying party binary may well link it)
 	"crypto"
 	"crypto/ecdsa"
 	"crypto/ed25519"
